@@ -25,6 +25,9 @@ STRENGTHENED = {
     'C08-4': 'missed by the check as of /verif commit f2be2be (confirmed by running that version against the change: rc=0; the Writer scenarios only wrote whole buffers); every C08 scenario now starts with single items followed by flush() before the buffers',
     'C09-3': 'missed at first: the corpus was meant to hold bzip2 files whose first stream ends 1-2 bytes before a 5000-byte read chunk, but the search for such a first stream (prefix lengths of incompressible data) silently found none for bzip2; the search now runs on the compressible payload with bisection and retries, and the driver fails (exit 2) if the required alignment classes are not in the corpus',
     'C14-3': 'missed at first (the XML writer output was parsed with expat only, never with the library\'s own XML parser, whose character-data handler is what has to reassemble escaped text); C14 writer mode now also reads every XML block with the real Reader and compares all string sites',
+    'C03-4': 'missed at first (verify run of 11:4x with /verif commit 1e0c0a5..: rc=0; no crafted XML input had a <tag> after a <discussion>); C03 now has crafted XML inputs with every order of up to 3 child elements of 6 kinds under each parent and every order of 4 under <changeset>, run in both build modes and with tiny parser buffers',
+    'C18-3': 'missed at first: round trip and strict monotonicity were judged only on the documented domain of lonlat_to_mercator (|lat| <= 85.0511288) although the property states them for every representable latitude; after the exhaustive thorough run had shown 0 mismatches outside that domain on the unchanged tree, both clauses are now judged for every latitude in [-90, 90]',
+    'C18-4': 'missed at first for the same reason as C18-3 (the 36 affected latitudes lie within 3e-6 degrees of the poles, outside the domain that was judged); the +-10^4 neighbourhoods of +-90 degrees are swept with stride 1 in the quick tier and are now judged',
     'C02-1': 'missed at first (string pairs near the 250-character table limit were deliberately kept out of the files); C02 now places pairs of exactly 249/250/251/252 characters followed by references',
 }
 
